@@ -923,3 +923,39 @@ let () = register "c05" (fun line ->
     let show (d : Relay.dir) = Printf.sprintf "%d:%08x eof=%d" (L.length d.Relay.delivered) (fnv32 d.Relay.delivered) (if d.Relay.eof_delivered then 1 else 0) in
     ignore order;
     Printf.sprintf "c2b=%s b2c=%s upstream=1/1/0" (show (dir nc false)) (show (dir nb true))))
+
+(* ---------------- C06 end to end: per-host connection counts ---------------- *)
+let () = register "c06tcp" (fun line ->
+  let (hd, tl) = match Str.bounded_split_delim (Str.regexp_string " # ") line 2 with
+    | [a; b] -> (a, b) | _ -> failwith "bad c06tcp line" in
+  let f = Array.of_list (L.filter (fun x -> x <> "") (S.split_on_char ' ' hd)) in
+  let nb = int_of_string f.(1) in
+  (* one counter state per host object: a connection is counted after its dial succeeded and until its relay ends *)
+  let st = Array.make nb (Stats.sinit Z0) in
+  let kept = ref [] in   (* (index, backend, open) in order of creation *)
+  let nk = ref 0 in
+  let counts () = S.concat "," (L.init nb (fun i -> string_of_int (int_of_z st.(i).Stats.cx_active))) in
+  let outs = L.map (fun op ->
+    let body = S.sub op 1 (S.length op - 1) in
+    let res = match Stdlib.String.get op 0 with
+      | 'o' ->
+        (match S.split_on_char ':' op with
+         | [_; r] when S.length r = 2 && Stdlib.String.get r 0 = 'b' ->
+           let b = Char.code (Stdlib.String.get r 1) - 48 in
+           st.(b) <- Stats.sstep st.(b) Stats.SvConnect;
+           kept := !kept @ [(!nk, b, ref true)]; incr nk; r
+         | [_; r] -> r
+         | _ -> "?")
+      | 'c' ->
+        let i = int_of_string body in
+        L.iter (fun (k, b, o) -> if k = i && !o then begin o := false; st.(b) <- Stats.sstep st.(b) Stats.SvFinish end) !kept; ""
+      | 'r' ->
+        let b0 = int_of_string body in
+        let n = ref 0 in
+        L.iter (fun (_, b, o) -> if b = b0 && !o then begin o := false; incr n; st.(b) <- Stats.sstep st.(b) Stats.SvFinish end) !kept;
+        Printf.sprintf "closed=%d" !n
+      | 'a' -> st.(int_of_string body) <- Stats.sinit Z0; ""
+      | _ -> "" in
+    S.trim (res ^ " " ^ counts ())) (L.filter (fun x -> x <> "") (S.split_on_char ' ' tl)) in
+  L.iter (fun (_, b, o) -> if !o then begin o := false; st.(b) <- Stats.sstep st.(b) Stats.SvFinish end) !kept;
+  S.concat " ; " (outs @ ["end " ^ counts ()]))
